@@ -171,6 +171,7 @@ def subspaces(tier):
                         yield {'k': 'file', 'tool': tool, 'seed': 'reloc', 'mut': ['reloc', [1, 1, 6], ps, rdata]}
                 yield {'k': 'file', 'tool': tool, 'seed': 'reloc', 'mut': ['reloc-unterminated', [1, 1, 5], [0, 3], rdata]}
     subs.append(('5:code-file-prefixes-and-substitutions', filefaults()))
+    subs.append(('5:tool-option-arguments', toolopt_cases()))
     subs.append(('5:dasl-images', dasl_cases(q)))
     return subs
 
@@ -294,6 +295,30 @@ def nest_cases():
         for ctx in ('', 'irp x,1,2', 'rept 2', 'm macro', 'if 1', 'x struct', 'section s'):
             for opt in ([], ['-L']):
                 yield {'k': 'ctx', 'ctx': ctx, 'body': body, 'opt': opt}
+
+
+def toolopt_cases():
+    """argument values of the code-file tools' options at and beyond their natural limits, on a valid code file"""
+    lists = [','.join(str(i) for i in range(n)) for n in (1, 2, 99, 100, 101, 200, 256)] + [','.join(['65'] * 300), ',', '1,', ',1', '256', '-1', '0x41,0x41', 'x']
+    for tool in ('p2bin', 'p2hex', 'pbind'):
+        for l in lists:
+            yield {'k': 'toolopt', 'tool': tool, 'opt': ['-f', l]}
+            yield {'k': 'toolopt', 'tool': tool, 'opt': ['-f', l, '+f', l]}
+    nums = ['0', '1', '2', '3', '15', '16', '17', '254', '255', '256', '257', '65535', '65536', '0x7fffffff', '0xffffffff', '0x100000000', '-1', '', 'x', '1x', '$10', '0x']
+    for v in nums:
+        for o in ('-l', '-e', '-R', '-i', '-M', '-avrlen', '-m', '-d'):
+            yield {'k': 'toolopt', 'tool': 'p2hex', 'opt': [o, v]}
+        for o in ('-l', '-e', '-S', '-m'):
+            yield {'k': 'toolopt', 'tool': 'p2bin', 'opt': [o, v]}
+    rngs = ['0-0', '0-1', '1-0', '0x-0x', '0x-', '-0x', '0-0xffffffff', '0xffffffff-0', '0xfffffff0-0xffffffff', '$100-$1ff', '-', '', '5', '0-0-0', '0x100-0x', '0x-0x100',
+            '0x100000000-0x100000010']
+    for r in rngs:
+        for tool in ('p2bin', 'p2hex'):
+            yield {'k': 'toolopt', 'tool': tool, 'opt': ['-r', r]}
+            yield {'k': 'toolopt', 'tool': tool, 'opt': ['-r', r, '-s'] if tool == 'p2bin' else ['-r', r, '-F', 'Moto']}
+    for f in ('Moto', 'Intel', 'Intel16', 'Intel32', 'MOS', 'Tek', 'DSK', 'Atmel', 'Mico8', 'C', 'default', '', 'x', 'moto', 'INTEL'):
+        yield {'k': 'toolopt', 'tool': 'p2hex', 'opt': ['-F', f]}
+        yield {'k': 'toolopt', 'tool': 'p2hex', 'opt': ['-F', f, '-l', '255']}
 
 
 def dasl_cases(q):
@@ -490,6 +515,18 @@ def evaluate(case):
         if cls == 'record length beyond end of file' and o.rc == 0 and name != 'alink':
             return core.R(False, 'format-status', 'tool/%s/overlong-record-accepted' % name, 'record longer than the file accepted with status 0: ' + d)
         return core.R(True, 'rc%s' % o.rc, nontrivial=True, states=['%s/%d' % (name, o.rc)])
+    if k == 'toolopt':
+        name = case['tool']
+        args = {'p2bin': ['-q', 'x.p', 'x.bin'], 'p2hex': ['-q', 'x.p', 'x.hex'], 'plist': ['x.p'], 'pbind': ['-q', 'x.p', 'y.p']}[name] + case['opt']
+
+        def run(v, to=6):
+            core.fresh()
+            core.put('x.p', seeds()['twoseg'])
+            return core.run(name, args, variant=v, timeout=to, maxout=1 << 16)
+        o = run('asan')
+        d = '%s %s' % (name, ' '.join(a if len(a) < 60 else a[:40] + '...(%d characters)' % len(a) for a in case['opt']))
+        r = finish(run, o, TOOL_OK, d, 'tool/%s/option/%s' % (name, case['opt'][0] if case['opt'] else 'none'), big_ok=False)
+        return r or core.R(True, 'rc%s' % o.rc, nontrivial=True, states=['%s-opt/%d' % (name, o.rc)])
     if k == 'dasl':
         img = bytes(case['img'])
 
